@@ -481,6 +481,45 @@ static ABT_thread pop_expect(ABT_pool pool, ABT_thread want, const char *what)
     return t;
 }
 
+/* A work unit's stack is its own down to the last byte: the running ULT asks the library for its stack range
+ * (ABT_thread_attr_get_stack), fills the lowest SFILL bytes of it - far below anything the harness's frames reach -
+ * and finds them unchanged when it is about to finish.  A stack that overlaps another unit's descriptor or stack (a
+ * memory-pool element laid out too short, a malloc'ed block cut wrongly) breaks one of the two units across the
+ * switches of the scenario. */
+#define SFILL 1536
+static char *own_stack_fill(void)
+{
+    ABT_thread self = ABT_THREAD_NULL;
+    ABT_thread_attr at = ABT_THREAD_ATTR_NULL;
+    void *addr = NULL;
+    size_t sz = 0, i;
+    if (G.prov == 'Y')
+        return NULL;
+    if (ABT_self_get_thread(&self) != ABT_SUCCESS || ABT_thread_get_attr(self, &at) != ABT_SUCCESS)
+        return NULL;
+    if (ABT_thread_attr_get_stack(at, &addr, &sz) != ABT_SUCCESS)
+        addr = NULL;
+    ABT_thread_attr_free(&at);
+    char *here = (char *)__builtin_frame_address(0);
+    if (!addr || sz < 4 * SFILL || !(here > (char *)addr + 2 * SFILL && here <= (char *)addr + sz))
+        return NULL;
+    for (i = 0; i < SFILL; i++)
+        ((volatile char *)addr)[i] = (char)(0xA5 ^ (i * 7));
+    return (char *)addr;
+}
+
+static void own_stack_check(char *lo, const char *who)
+{
+    size_t i;
+    if (!lo)
+        return;
+    for (i = 0; i < SFILL; i++)
+        if (((volatile char *)lo)[i] != (char)(0xA5 ^ (i * 7))) {
+            failf("byte %ld of %s's own stack (bottom end, below every frame) was overwritten during the scenario", (long)i, who);
+            return;
+        }
+}
+
 static void B_body(void *arg)
 {
     (void)arg;
@@ -488,6 +527,7 @@ static void B_body(void *arg)
     if (!ENTRY_ALIGNED())
         failf("helper ULT function entered with RSP+8 not a multiple of 16 (frame address %p)", __builtin_frame_address(0));
     movaps_probe();
+    char *own_lo = own_stack_fill();
     if (G.prov == 'U') {
         char *p = (char *)&inc;
         if (!(p >= G.ubase2 && p < G.ubase2 + G.size))
@@ -531,6 +571,7 @@ static void B_body(void *arg)
     } else {
         failf("harness: unknown resumer %s", G.res);
     }
+    own_stack_check(own_lo, "the helper");
     G.b_done = 1;
 }
 
@@ -543,6 +584,7 @@ static void A_body(void *arg)
     if (!ENTRY_ALIGNED())
         failf("ULT function entered with RSP+8 not a multiple of 16 (frame address %p)", __builtin_frame_address(0));
     movaps_probe();
+    char *own_lo = own_stack_fill();
     if (G.prov == 'U') {
         char *p = (char *)&loc[0];
         if (!(p >= G.ubase && p < G.ubase + G.size))
@@ -619,6 +661,7 @@ static void A_body(void *arg)
         if (loc[i] != 0x10CA100000000000ULL + (uint64_t)i * 0x101)
             failf("local %d of A changed across the switch", i);
     movaps_probe();
+    own_stack_check(own_lo, "A");
     /* let a helper that blocked itself for us finish */
     if (res_is("resume_suspend_to"))
         CHK(ABT_thread_resume(G.B));
